@@ -52,9 +52,13 @@ Value& STRPOSExpression::value(Context & ctx) const
         val.swap(std::move(v));
         return val;
       case Type::INTEGER:
+        if (a2.isNull())
+          return (val.lvalue() ? ctx.allocate(std::move(v)) : (val.swap(std::move(v)), val));
         s = *a2.integer();
         break;
       case Type::NUMERIC:
+        if (a2.isNull())
+          return (val.lvalue() ? ctx.allocate(std::move(v)) : (val.swap(std::move(v)), val));
         s = Value::toInteger(*a2.numeric());
         break;
       default:
